@@ -103,3 +103,45 @@ def c_runtime(repo: Repo, big_endian: bool = False) -> Lang:
         return L
 
     return repo.memo("flows:c:be" if big_endian else "flows:c:le", build)
+
+
+def compiler_flow(repo: Repo, cls_name: str, rel_hint: Optional[str] = None, inline: Optional[Callable[[str, ast.FunctionDef], bool]] = None, **kw: Any) -> PyFlow:
+    """Path engine for methods of a compiler class: methods are resolved
+    through the MRO of that (concrete) class, abstract hooks are never inlined,
+    class-level and module-level literal constants are visible."""
+    from .core import src_of
+
+    m = get_model(repo)
+    c = m.cls(cls_name, rel_hint)
+    methods: Dict[str, ast.FunctionDef] = {}
+    consts: Dict[str, ast.AST] = {}
+    funcs: Dict[str, ast.FunctionDef] = {}
+    for k in m.mro(c):
+        for name, fi in k.methods.items():
+            methods.setdefault(name, fi.node)
+        for name, v in k.attrs_val.items():
+            consts.setdefault(name, v)
+        mod = m.mods.get(k.rel)
+        if mod is not None:
+            for name, v in mod.assigns.items():
+                consts.setdefault(name, v)
+            for name, fi in mod.funcs.items():
+                funcs.setdefault(name, fi.node)
+
+    # class attributes that some method assigns through self are state, not constants
+    for k in m.mro(c):
+        for fi in k.methods.values():
+            for n in ast.walk(fi.node):
+                if isinstance(n, ast.Attribute) and isinstance(n.ctx, ast.Store) and isinstance(n.value, ast.Name) and n.value.id in ("self", "cls"):
+                    consts.pop(n.attr, None)
+
+    def default_inline(name: str, fn: ast.FunctionDef) -> bool:
+        return "raise NotImplementedError" not in src_of(fn)
+
+    def flt(name: str, fn: ast.FunctionDef) -> bool:
+        if "raise NotImplementedError" in src_of(fn) and len(fn.body) <= 2:
+            return False
+        return inline(name, fn) if inline is not None else True
+
+    kw.setdefault("funcs", {})
+    return PyFlow(methods=methods, consts=consts, inline_filter=flt, **kw)
